@@ -7,21 +7,25 @@ PID = 'C18'
 HEADER = []
 RULE = ('(a) Utility::Match against the Gallina glob matcher: ALL patterns of length <= 4 over {a,B,*,?,\\} x all texts of length <= 3 '
         'over {a,b,*,?,\\} (quick; <= 4 thorough) plus random permission-like pairs; '
-        '(b) per case one random inventory (<= 4 hosts x <= 2 services, names colliding up to case, vars present/absent), one ApiUser with '
+        '(b) per case one random inventory (<= 4 hosts x <= 2 services, names colliding up to case, vars present/absent, navigation '
+        'references check_command / check_period / event_command / command_endpoint present or null), one ApiUser with '
         '<= 4 permission entries (plain strings, {permission, filter} with real DSL lambdas, wildcards * ? \\*, mixed case, several '
-        'matching entries with and without filter, filters that throw on hosts), then 6-12 operations: HasPermission/CheckPermission for '
+        'matching entries with and without filter, filters that throw on hosts, filters reading a joined object such as '
+        'command_endpoint.name), then 6-12 operations: HasPermission/CheckPermission for '
         'every registered required permission, GetFilterTargets with the QueryDescriptions of the object query/modify/delete handlers and '
         'of the actions handler (single name, plural lists, type only, type+filter, fast-path shapes and near misses, filter_vars, mixtures, '
         'missing/invalid/foreign type, names containing "!" or differing in case, default provider (fast path) and counting provider), and the '
         'real handlers through HttpHandler::ProcessRequest (GET/POST/DELETE /v1/objects/<type>[/<name>], POST /v1/actions/reschedule-check, '
-        'joins). non-trivial = the case contains a query that returned at least one object or was refused; distinct = distinct script text')
+        'joins); family nav-order: targets with a null reference evaluated right after targets with a non-null one, in inventory '
+        'order, plural-name list order and fast-path order. non-trivial = the case contains a query that returned at least one object or was refused; distinct = distinct script text')
 TRUSTED = ['model: coq/Perm/PmModel.v (transcription of FilterUtility::HasPermission/CheckPermission/EvaluateFilter/GetFilterTargets, '
            'ApplyRule::GetTargetHosts/GetTargetServices, the filter_vars shadowing guard, the namespace resets of the permission frame, the joins loop of ObjectQueryHandler; glob matcher proved equivalent to a declarative '
            'spec and compared exhaustively with Utility::Match on short strings)',
-           'filters are the boolean DSL fragment {sc.name == "..", sc.vars.k == "..", sc.name == filter_var, &&, ||, !, true, false} with '
+           'filters are the boolean DSL fragment {sc.name == "..", sc.vars.k == "..", sc.name == filter_var, &&, ||, !, true, false}, sc in '
+           '{host, service, obj, check_command, check_period, event_command, command_endpoint}, with '
            'three-valued evaluation (true/false/ScriptError); the rest of the DSL is C15',
-           'source facts re-extracted each run: permission string and CheckPermission/GetFilterTargets call of every registered HTTP handler '
-           '(coq/Facts/Facts_c18.v)',
+           'source facts re-extracted each run: permission string and CheckPermission/GetFilterTargets call of every registered HTTP handler, '
+           'navigation fields of Host/Service from the .ti files, structure of EvaluateFilter\'s binding loop (coq/Facts/Facts_c18.v)',
            'harness/ops_pm.cpp: exception classes (ScriptError / invalid_argument), object sets and HTTP status are observed; no log text']
 ASSUMPTIONS = ['ASCII permission strings and object names (String::ToLower and tolower agree on ASCII)',
                'object names are unique per type (ConfigObject registry) and contain no "!" (enforced by Icinga name validation)',
@@ -44,6 +48,23 @@ SVCS = ['s1', 'S1', 'ping', 'Ping', 'a']
 VKEYS = ['os', 'env', 'k']
 VVALS = ['linux', 'Linux', 'win', 'prod', 'x']
 FVNAMES = ['v1', 'v2', 'v3']
+# objects the navigation fields refer to (created once per harness process): scope char -> (script key, pool)
+NAV = {'k': ('cc', ['pmdummy', 'pmdummy2']), 'p': ('cp', ['pm-tp1', 'pm-tp2']), 'e': ('ec', ['pm-ev1', 'pm-ev2']),
+       'z': ('ce', ['pm-sat-a', 'pm-sat-b'])}
+
+
+def nav_attrs(rnd, dense=0.35):
+    """navigation references of one host/service: each of check_period / event_command / command_endpoint present or null"""
+    out = ''
+    for sc, (key, pool) in NAV.items():
+        if rnd.random() < dense:
+            out += ' %s=%s' % (key, hx(rnd.choice(pool)))
+    return out
+
+
+def nav_atom(rnd):
+    sc = rnd.choice('pezzzpek')
+    return '%s%s:%s' % (rnd.choice('nnnN'), sc, hx(rnd.choice(NAV[sc][1] + ['nope'])))
 
 
 def mangle_case(rnd, s):
@@ -89,6 +110,8 @@ def perm_pattern(rnd, req):
 def atom(rnd, hosts, svcs, kind):
     """kind: 'perm' (permission filter), 'user' (user filter), fvars allowed only in user filters"""
     m = rnd.random()
+    if rnd.random() < 0.2:
+        return nav_atom(rnd)
     sc = rnd.choice('hhhhosss' if kind == 'perm' else 'hhhoos')
     if m < 0.4:
         pool = (svcs + SVCS[:2]) if sc == 's' else (hosts + HOSTS[:2])
@@ -150,14 +173,14 @@ def gen_inventory(rnd):
         if rnd.random() < 0.75:
             ks = rnd.sample(VKEYS, rnd.choice((1, 1, 2)))
             vs = ' vars=' + ','.join('%s:%s' % (hx(k), hx(rnd.choice(VVALS))) for k in ks)
-        lines.append('pm_host name=%s%s' % (hx(h), vs))
+        lines.append('pm_host name=%s%s%s' % (hx(h), vs, nav_attrs(rnd)))
     for h in hosts:
         for s in rnd.sample(SVCS, rnd.choice((0, 1, 1, 2))):
             vs = ''
             if rnd.random() < 0.6:
                 ks = rnd.sample(VKEYS, rnd.choice((1, 1, 2)))
                 vs = ' vars=' + ','.join('%s:%s' % (hx(k), hx(rnd.choice(VVALS))) for k in ks)
-            lines.append('pm_svc host=%s name=%s%s' % (hx(h), hx(s), vs))
+            lines.append('pm_svc host=%s name=%s%s%s' % (hx(h), hx(s), vs, nav_attrs(rnd)))
             svcs.append(s)
             pairs.append((h, s))
     return hosts, svcs, pairs, lines
@@ -390,6 +413,89 @@ def gen_join_case(rnd):
     return {'lines': lines, 'tags': {'family': 'joins'}}
 
 
+def gen_nav_order_case(rnd):
+    """permission filters that read a joined object (command_endpoint / check_period / event_command / check_command of the
+    target, `host` of a service), inventories in which targets with a null reference follow targets with a non-null one, and
+    evaluation orders chosen by the request: inventory order (type, type+filter), plural-name list order, fast-path order"""
+    sc = rnd.choice('zzzpek')
+    key, pool = NAV[sc]
+    t = rnd.choice(['Host', 'Host', 'Service'])
+    nh = rnd.choice((2, 3, 3, 4))
+    hosts = rnd.sample(HOSTS, nh)
+    lines, objs = [], []          # objs: (full name, host, short)
+    def refs(i):
+        # alternate non-null / null for the field under test (random phase), others random
+        r = ''
+        for c2, (k2, pool2) in NAV.items():
+            if c2 == sc:
+                if c2 == 'k' or (i + phase) % 2 == 0:
+                    r += ' %s=%s' % (k2, hx(pool2[(i // 2) % 2] if c2 != 'k' else pool2[(i + phase) % 2]))
+            elif rnd.random() < 0.25:
+                r += ' %s=%s' % (k2, hx(rnd.choice(pool2)))
+        return r
+    phase = rnd.randint(0, 1)
+    for i, h in enumerate(hosts):
+        vs = ' vars=%s:%s' % (hx('os'), hx(rnd.choice(VVALS))) if rnd.random() < 0.6 else ''
+        lines.append('pm_host name=%s%s%s' % (hx(h), vs, refs(i) if t == 'Host' else nav_attrs(rnd, 0.2)))
+        if t == 'Host':
+            objs.append((h, h, None))
+    if t == 'Service':
+        i = 0
+        for h in hosts:
+            for sv in rnd.sample(SVCS, rnd.choice((1, 1, 2))):
+                lines.append('pm_svc host=%s name=%s%s' % (hx(h), hx(sv), refs(i)))
+                objs.append((h + '!' + sv, h, sv))
+                i += 1
+    want = pool[0]
+    f = rnd.choice([['n%s:%s' % (sc, hx(want))], ['n%s:%s' % (sc, hx(want))], ['N%s:%s' % (sc, hx(pool[1]))],
+                    ['n%s:%s' % (sc, hx(want)), 'n%s:%s' % (sc, hx(pool[1])), 'or'],
+                    ['n%s:%s' % (sc, hx(want)), 'vh:%s:%s' % (hx('os'), hx(rnd.choice(VVALS))), rnd.choice(['and', 'or'])]])
+    perm = {'Host': 'objects/query/Host', 'Service': 'objects/query/Service'}[t]
+    act = 'actions/reschedule-check'
+    es = [hx(mangle_case(rnd, rnd.choice([perm, 'objects/query/*', 'objects/*']))) + '@' + ','.join(f),
+          hx(mangle_case(rnd, rnd.choice([act, 'actions/*']))) + '@' + ','.join(f)]
+    if rnd.random() < 0.3:
+        es.append(hx('objects/modify/*') + '@' + ','.join(f))
+    lines.append('pm_user perms=' + ';'.join(es))
+    lines.append('pm_load')
+    lines.append('pm_perm perm=' + hx(perm))
+    names = [o[0] for o in objs]
+    low = t.lower()
+    def fast(order):
+        toks = []
+        for j, (full, h, sv) in enumerate(order):
+            toks += ['nh:' + hx(h)] if sv is None else ['nh:' + hx(h), 'ns:' + hx(sv), 'and']
+            if j:
+                toks.append('or')
+        return ','.join(toks)
+    for i in range(rnd.randint(5, 8)):
+        k = rnd.random()
+        order = list(objs)
+        if rnd.random() < 0.6:
+            rnd.shuffle(order)
+        order = order[:rnd.choice((2, 3, 4))]
+        if k < 0.2:
+            q = 'type=' + t
+        elif k < 0.35:
+            q = 'type=%s filter=%s' % (t, ','.join(rfilter(rnd, hosts, [o[2] for o in objs if o[2]], 'user', 1)))
+        elif k < 0.65:
+            q = '%ss=%s' % (low, ','.join(hx(o[0]) for o in order))
+        elif k < 0.9:
+            q = 'type=%s filter=%s' % (t, fast(order))
+        else:
+            q = '%s=%s %ss=%s' % (low, hx(order[0][0]), low, ','.join(hx(o[0]) for o in order[1:]))
+        m = rnd.random()
+        if m < 0.5:
+            lines.append('pm_q types=%s perm=%s prov=%d %s' % (t, hx(perm), rnd.choice((0, 0, 1)), q))
+        elif m < 0.7:
+            lines.append('pm_http kind=query ptype=%ss %s' % (low, ' '.join(p for p in q.split() if not p.startswith('type='))))
+        elif m < 0.8:
+            lines.append('pm_http kind=modify ptype=%ss %s' % (low, ' '.join(p for p in q.split() if not p.startswith('type='))))
+        else:
+            lines.append('pm_http kind=action act=reschedule-check ' + q)
+    return {'lines': lines, 'tags': {'family': 'nav-order'}}
+
+
 def generate(seed, tier):
     rnd = random.Random(seed)
     cases = gen_match_cases(rnd, tier)
@@ -400,6 +506,8 @@ def generate(seed, tier):
         cases.append(gen_multi_type_case(rnd))
     for i in range(n // 8):
         cases.append(gen_join_case(rnd))
+    for i in range(n // 5):
+        cases.append(gen_nav_order_case(rnd))
     return cases
 
 
@@ -429,9 +537,91 @@ def keep_line(l):
     return l.startswith(('pm_host', 'pm_svc', 'pm_user', 'pm_load'))
 
 
+def _nav_order_stats(case, c):
+    """count permission-filter evaluations in which a target with a NULL navigation reference is evaluated directly after a
+    target with a non-null one, in the same namespace, under a permission filter that reads that reference (derived from the
+    script: inventory order for type scans, list order for plural names, chain order on the fast path)"""
+    KEY = {'z': 'ce', 'p': 'cp', 'e': 'ec'}
+    objs = {'Host': [], 'Service': []}          # (full name, {key: value})
+    reads = set()
+    for l in case['lines']:
+        t = l.split()
+        kv = dict(x.split('=', 1) for x in t[1:] if '=' in x)
+        unhx = lambda h: binascii.unhexlify(h).decode() if h and h != '-' else ''
+        if t[0] == 'pm_host':
+            objs['Host'].append((unhx(kv['name']), kv))
+        elif t[0] == 'pm_svc':
+            objs['Service'].append((unhx(kv['host']) + '!' + unhx(kv['name']), kv))
+        elif t[0] == 'pm_user':
+            for e in kv.get('perms', '-').split(';'):
+                if '@' in e:
+                    for tok in e.split('@', 1)[1].split(','):
+                        if len(tok) > 2 and tok[0] in 'nNvcC' and tok[1] in KEY:
+                            reads.add(tok[1])
+        elif t[0] in ('pm_q', 'pm_http') and reads:
+            if t[0] == 'pm_q':
+                types = kv.get('types', '').split(',')
+                fast_ok = kv.get('prov', '0') == '0'
+                qtype = kv.get('type')
+            elif kv.get('kind') == 'action':
+                types, fast_ok, qtype = ['Host', 'Service'], True, kv.get('type')
+            else:
+                ty = 'Service' if kv.get('ptype') == 'services' else 'Host'
+                types, fast_ok, qtype = [ty], True, ty
+            seqs = []
+            for ty in types:
+                if ty not in objs:
+                    continue
+                byname = dict(objs[ty])
+                seq = []
+                low = ty.lower()
+                if low in kv and unhx(kv[low]) in byname:
+                    seq.append(byname[unhx(kv[low])])
+                for n in (kv.get(low + 's', '-').split(',') if kv.get(low + 's', '-') != '-' else []):
+                    if unhx(n) not in byname:
+                        break
+                    seq.append(byname[unhx(n)])
+                seqs.append(seq)
+            anynames = any(seqs) and any(len(x) for x in seqs)
+            if qtype in objs and ('filter' in kv or not anynames):
+                toks = kv.get('filter', '').split(',') if 'filter' in kv else None
+                byname = dict(objs[qtype])
+                if toks and fast_ok and all(x in ('and', 'or') or x[:2] in ('nh', 'Nh', 'ns', 'Ns') for x in toks):
+                    names, pend = [], {}
+                    for x in toks:
+                        if x[:2] in ('nh', 'Nh'):
+                            pend['h'] = unhx(x.split(':')[1])
+                        elif x[:2] in ('ns', 'Ns'):
+                            pend['s'] = unhx(x.split(':')[1])
+                        if qtype == 'Host' and 'h' in pend:
+                            names.append(pend.pop('h'))
+                        elif qtype == 'Service' and 'h' in pend and 's' in pend:
+                            names.append(pend.pop('h') + '!' + pend.pop('s'))
+                    seqs.append([byname[n] for n in names if n in byname])
+                    c['nav_eval_sequences_fast_path'] += 1
+                else:
+                    seqs.append([o[1] for o in objs[qtype]])
+                    c['nav_eval_sequences_scan'] += 1
+            for seq in seqs:
+                if len(seq) > 1:
+                    c['nav_eval_sequences_name_lists' if seq is not seqs[-1] else 'nav_eval_sequences_last'] += 0
+                for a, b in zip(seq, seq[1:]):
+                    for sc in reads:
+                        if KEY[sc] in a and KEY[sc] not in b:
+                            c['nav_null_after_nonnull_evals'] += 1
+    if reads:
+        c['cases_with_perm_filter_reading_joined_object'] += 1
+
+
 def extra_stats(cases, impl):
     import collections
     c = collections.Counter()
+    for cs in cases:
+        if cs['lines'] and not cs['lines'][0].startswith('pm_match'):
+            try:
+                _nav_order_stats(cs, c)
+            except Exception:
+                c['nav_stats_errors'] += 1
     for cs in cases:
         for l in cs['lines']:
             op = l.split()[0]
@@ -460,4 +650,4 @@ def extra_stats(cases, impl):
             elif l.startswith('pm_perm'):
                 c['perm_has' if 'has=1' in l else 'perm_missing'] += 1
                 if '!E' in l: c['perm_filter_throws'] += 1
-    return dict(c)
+    return {k: v for k, v in c.items() if v}
